@@ -28,7 +28,12 @@ def run(S):
     comments.report(S, 'C03', found)
     # one-line list layouts are fixed points (kept blank lines must not leave traces when the list is folded)
     f3 = lists.explore(S, 4 if S.tier == 'quick' else 5, want=('C03',), cats=('item', 'comma', 'space'), between_items=True)
+    # expressions that get parentheses / braces when broken must be converted in the mode the delimiter opens (code inside braces, continued code
+    # inside parentheses): otherwise a broken operator chain is printed in a way that reads back as several statements
+    from . import flows
+    f3 += flows.explore_parens(S, prop='C03')
     lists.report(S, 'C03', f3)
+    validate_corpus(S, 'list / wrapper idempotence', [l for l, _ in f3 if l.startswith('C03:')], lambda: lists.native_idempotence(S))
     # math call arguments that come out on one line are laid out identically when read again
     f5 = mathargs.explore(S, 3 if S.tier == 'quick' else 4, want=('C03',))
     mathargs.report(S, 'C03', f5)
